@@ -150,14 +150,14 @@ Section NtsLookup.
 
   (* end to end: what the driver finds for token t is where Cassandra places t *)
   Lemma nts_lookup_eq_spec (r : @ring T) m t :
-    sorted_toks ltb r -> NoDup (map snd r) -> (forall h, In h hosts <-> In h (map snd r)) ->
+    sorted_toks ltb r -> (forall h, In h hosts <-> In h (map snd r)) ->
     nts_replica_map info dcs hosts r = Ok m ->
     reps_or_nil (replicas_for ltb m t) = nts_natural_endpoints ltb dc_of rack_of dcs r t.
   Proof.
-    intros Hs Hnd Hh Hm.
+    intros Hs Hh Hm.
     assert (Hr : forall e, In e r -> In (snd e) hosts) by (intros e He; apply Hh, in_map; exact He).
     rewrite (nts_replica_map_eq info dcs hosts dcs_nonneg dcs_keys r Hr) in Hm.
-    destruct (_ && _); [discriminate|]. inversion Hm; subst m. clear Hm.
+    inversion Hm; subst m. clear Hm.
     rewrite replicas_for_nth, nts_entries_jx.
     set (J := jx r). set (F := Fj (map snd r)).
     assert (HsJ : sorted_toks ltb J) by (apply (sorted_toks_map_fst ltb r J); [symmetry; apply jx_fst|exact Hs]).
@@ -203,7 +203,7 @@ Section NtsLookup.
   Proof.
     intros Hs Hr Hm Hg Hrf. apply get_host_for_token_nth in Hg.
     rewrite (nts_replica_map_eq info dcs hosts dcs_nonneg dcs_keys r Hr) in Hm.
-    destruct (_ && _); [discriminate|]. inversion Hm; subst m. clear Hm.
+    inversion Hm; subst m. clear Hm.
     rewrite replicas_for_nth, nts_entries_jx.
     set (J := jx r). set (F := Fj (map snd r)).
     assert (HsJ : sorted_toks ltb J) by (apply (sorted_toks_map_fst ltb r J); [symmetry; apply jx_fst|exact Hs]).
@@ -228,32 +228,27 @@ Section NtsLookup.
     assert (Hin : In h hosts).
     { pose proof Hn as Hn'. apply nth_error_In in Hn'. apply in_map_iff in Hn'. destruct Hn' as [x [Hx1 Hx2]].
       rewrite <- Hx1. apply Hr. exact Hx2. }
-    destruct (nts_token_ok info dcs hosts dcs_nonneg dcs_keys (map snd r) i h Hn Hin Hrf) as [st [suf [_ [_ [_ Htok]]]]].
+    destruct (nts_token_ok info dcs hosts dcs_nonneg dcs_keys (map snd r) i h Hn Hin Hrf) as [st [suf [_ [_ [_ [Htok _]]]]]].
     exists suf. unfold F, Fj, reps_of. simpl. rewrite Htok. reflexivity.
   Qed.
 
-  (* with one token per host every entry is free of repetitions, consists of ring hosts and holds at most
-     min(rf, nodes of the DC) hosts per DC *)
+  (* every entry is free of repetitions, consists of ring hosts and holds at most min(rf, nodes of the DC)
+     hosts per DC (any number of tokens per host) *)
   Lemma nts_entries_props (r : @ring T) m e :
-    NoDup (map snd r) -> (forall h, In h hosts <-> In h (map snd r)) ->
+    (forall x, In x r -> In (snd x) hosts) ->
     nts_replica_map info dcs hosts r = Ok m -> In e m ->
     NoDup (snd e) /\ incl (snd e) (map snd r)
     /\ (forall dc, Z.of_nat (count_dc info dc (snd e))
                    <= Z.min (getz dcs dc) (Z.of_nat (length (dc_endpoints dc_of (map snd r) dc))))
     /\ (length (snd e) <= length (nodup Z.eq_dec (map snd r)))%nat.
   Proof.
-    intros Hnd Hh Hm He.
-    assert (Hr : forall x, In x r -> In (snd x) hosts) by (intros x Hx; apply Hh, in_map; exact Hx).
+    intros Hr Hm He.
     rewrite (nts_replica_map_eq info dcs hosts dcs_nonneg dcs_keys r Hr) in Hm.
-    destruct (_ && _); [discriminate|]. inversion Hm; subst m. clear Hm.
-    unfold nts_entries in He. apply in_map_iff in He. destruct He as [[i [tok th]] [<- Hx]].
-    apply filter_In in Hx. destruct Hx as [Hx Hg]. simpl in Hg. simpl.
-    apply indexed_In in Hx.
-    assert (Hn : nth_error (map snd r) i = Some th) by (rewrite nth_error_map, Hx; reflexivity).
-    assert (Hrf : getz dcs (dc_of th) <> 0) by (unfold good in Hg; simpl in Hg; apply negb_true_iff, Z.eqb_neq in Hg; exact Hg).
-    destruct (nts_token_props info dcs hosts (map snd r) dcs_nonneg dcs_keys Hh (map snd r) i th Hn Hrf Hnd) as [reps [K1 [K2 [K3 K4]]]]; [tauto|].
-    unfold reps_of. rewrite K1. split; [exact K2|]. split; [exact K3|]. split; [exact K4|].
-    apply NoDup_incl_length; [exact K2|]. intros x Hxx. apply nodup_In. apply K3. exact Hxx.
+    inversion Hm; subst m. clear Hm.
+    destruct (nts_entries_general info dcs hosts dcs_nonneg dcs_keys r e Hr He) as [K1 [K2 [K3 _]]].
+    split; [exact K1|]. split; [exact K2|]. split.
+    - intros dc. pose proof (count_le_endpoints info (map snd r) dc (snd e) K1 K2) as Hc. specialize (K3 dc). lia.
+    - apply NoDup_incl_length; [exact K1|]. intros x Hx. apply nodup_In. apply K2. exact Hx.
   Qed.
 End NtsLookup.
 
